@@ -55,14 +55,15 @@ example : valsOfLabel (Label.str "b") [Label.str "b", Label.str "a", Label.str "
 /-- **`pack_flat` end to end** (`NP.packFlat`, the model of `pack_flat` checked against the code):
     for ANY flat table with at least one column — any labels, in any order, repeated or not — the
     call succeeds, the packed index is `packedKeys` (the labels that occur, each once, ascending:
-    `packed_keys_are_the_labels`), the packed column is validated storage with the table's columns
+    `packed_keys_are_the_labels`), the packed column is clean validated storage with the table's columns
     as fields, and the row of label `k` is `packedRow df k`: for every field at once, the cells of
     exactly the records that carried `k`, in their original order. -/
 theorem pack_flat_end_to_end [Inhabited α] (df : FlatDF α) (hne : df.cols ≠ []) :
     ∃ packed, packFlat df = .ok packed ∧ packed.index = packedKeys df.index ∧
       packed.col.WF = true ∧ packed.col.aligned ∧
       packed.col.ty = df.cols.map (fun c => (c.1, c.2.1)) ∧
-      packed.col.rows = (packedKeys df.index).map (packedRow df) :=
+      packed.col.rows = (packedKeys df.index).map (packedRow df) ∧
+      packed.col.Clean ∧ packed.col.chunks ≠ [] :=
   packFlat_spec df hne
 
 /-- the packed index lists exactly the labels of the flat table, each once, strictly ascending;
